@@ -609,9 +609,17 @@ func (f *Factory) replayEdge(idx int, e *Edge, names []string) (EdgeResult, erro
 		// the source state of a wrapper edge is the state after the earlier wrapper calls; when the implementation
 		// left the specification's path before, the prefix is what trace validation has to judge
 		if !EqualPost(trace[len(trace)-1].Post, f.adapt(e.Pre)) {
-			// (every prefix of the wrapper history is an edge of its own and is judged there)
+			// (every prefix of the wrapper history is an edge of its own and is judged there; putting the
+			// wrapper around the base is not, so a base that changed at that point is reported here)
 			r.Status = "unreach"
 			r.Why = "state before the call differs from the specification's"
+
+			if len(e.Wh) == 0 {
+				r.Status = "mismatch"
+				r.Why = "creating the wrapper changed the base"
+				r.Trace = trace
+				r.Edge = e
+			}
 
 			return r, nil
 		}
